@@ -227,8 +227,13 @@ def record_ro(sc, outdir):
                     obj = SmcSample(method_name="SMC", outputs=outputs, parameter_names=list(sc["names"]), populations=pops,
                                     discrepancy_name=disc, weights=weights, **meta)
                 else:
+                    # every third weighted sample gets its weights the way the SMC sampler gives them to its populations:
+                    # assigned to the attribute after construction
+                    late = weights is not None and bool(sc.get("latew"))
                     obj = Sample(method_name="harness", outputs=outputs, parameter_names=list(sc["names"]),
-                                 discrepancy_name=disc, weights=weights, **meta)
+                                 discrepancy_name=disc, weights=None if late else weights, **meta)
+                    if late:
+                        obj.weights = weights
         project_object(e, obj, sc, proj, full=False)
     except Hang:
         e["res"] = "hang"
@@ -440,6 +445,7 @@ def ro_scenarios(ctx, rnd):
         out.append(random_ro(rnd))
     for k, sc in enumerate(out):
         sc["_k"] = k
+        sc["latew"] = bool(sc.get("hasw")) and k % 3 == 1
     return out
 
 
@@ -518,7 +524,7 @@ def random_tfs(rnd, M, count):
             while perm == list(range(M)):
                 rnd.shuffle(perm)
         elif r < 0.5:
-            tf["k"] = rnd.choice([-3, -2, -1, 1, 2, 3, 10, -10])
+            tf["k"] = rnd.choice([-3, -2, -1, 1, 2, 3, 10, -10, -20, -30, -40, 20, 40])      # exact in floats: powers of two
             tf["sgn"] = rnd.choice([1, -1])
         elif r < 0.75:
             tf["c"] = rnd.choice([-16, -7, -1, 1, 3, 8, 16, 1024])
@@ -537,7 +543,8 @@ def random_tfs(rnd, M, count):
 def cd_scenarios(ctx, rnd):
     out = []
     fixed = lambda M: [dict(perm=list(range(M)), sgn=-1, k=0, c=0), dict(perm=list(range(M)), sgn=1, k=2, c=0),
-                       dict(perm=list(range(M)), sgn=1, k=0, c=5), dict(perm=list(reversed(range(M))), sgn=1, k=-1, c=-3)]
+                       dict(perm=list(range(M)), sgn=1, k=0, c=5), dict(perm=list(reversed(range(M))), sgn=1, k=-1, c=-3),
+                       dict(perm=list(range(M)), sgn=1, k=-30, c=0), dict(perm=list(range(M)), sgn=1, k=30, c=0)]
     # every small chain
     shapes = [(1, 4, 3), (2, 4, 2)] if ctx.quick else [(1, 4, 3), (1, 5, 3), (1, 6, 3), (2, 4, 2), (2, 5, 2), (3, 4, 2), (1, 8, 2)]
     for (M, N, V) in shapes:
